@@ -1,7 +1,6 @@
 //! C14 - hex formatting prints exactly the bytes' digits, truncated to the precision.
 //! End to end through `LowerHex`/`UpperHex` with a directly constructed Formatter (symbolic precision) and a
 //! recording sink; the expected digit comes from an independent nibble -> digit model.
-#![cfg(kani)]
 use crate::common::*;
 use core::fmt::{LowerHex, UpperHex};
 use core::ops::Add;
